@@ -11,6 +11,9 @@ package flate
 // lookup of the decode loop yields exactly the symbols that canonical sequential decoding of the same bits yields
 // (a packed entry may stop early but never disagrees), literal for literal, 254+length for a length symbol with its
 // extra bits, 256 for end-of-block, and consumes exactly the bits of those symbols; the same for distance codes.
+// For each header a variant with some codes dropped (an INCOMPLETE code, which the library accepts) is parsed on
+// zeroed tables and on tables holding an earlier block's contents: acceptance, table predicates and every lookup
+// must agree (modes 4..6, boundedCheckStale).
 
 import (
 	"fmt"
@@ -238,7 +241,9 @@ func lookupLit(t *largeHuffCodeTable, b uint64) (syms []uint32, bitCount uint32,
 	return syms, bitCount, true
 }
 
-func boundedCheckHeader(rng *rand.Rand, litLens, distLens []uint8, mode int, patterns int) string {
+// boundedParseHeader writes the dynamic block header for the given code lengths and runs the real parser on it, on
+// decoder state whose tables hold zeroes (prev == nil) or the tables an earlier block (prev) left.
+func boundedParseHeader(litLens, distLens []uint8, mode int, prev *inflate, mustAccept bool) (*inflate, string) {
 	// write the header: code length code = 4 bits for each of the symbols 0..15 (complete), no repeat codes
 	w := &bitsW{}
 	final := uint64(0)
@@ -272,6 +277,11 @@ func boundedCheckHeader(rng *rand.Rand, litLens, distLens []uint8, mode int, pat
 	} // mode 1: final block with little input: one symbol per entry
 	input := append(append([]byte{}, hdr...), make([]byte, pad)...)
 	st := &inflate{}
+	if prev != nil {
+		st.litLenTable = prev.litLenTable
+		st.distTable = prev.distTable
+		st.dynHdr = prev.dynHdr
+	}
 	st.input = input
 	st.bfinal = uint32(final)
 	// consume BFINAL and BTYPE as tryDecodeHeader does
@@ -286,8 +296,16 @@ func boundedCheckHeader(rng *rand.Rand, litLens, distLens []uint8, mode int, pat
 		}()
 		if err := st.setupDynamicHeader(); err != nil {
 			msg = fmt.Sprintf("setupDynamicHeader rejects a valid header: %v", err)
+			if !mustAccept {
+				msg = "rejected"
+			}
 		}
 	}()
+	return st, msg
+}
+
+func boundedCheckHeader(rng *rand.Rand, litLens, distLens []uint8, mode int, patterns int) string {
+	st, msg := boundedParseHeader(litLens, distLens, mode, nil, true)
 	if msg != "" {
 		return msg
 	}
@@ -354,6 +372,99 @@ func boundedCheckHeader(rng *rand.Rand, litLens, distLens []uint8, mode int, pat
 	return ""
 }
 
+// boundedCheckStale: the tables the parser builds are a function of the header alone. The header (in general with
+// INCOMPLETE codes, which the library accepts when they are not over-subscribed) is parsed on zeroed decoder state and
+// on state whose tables hold an earlier block's contents; both runs must agree on acceptance, satisfy the table
+// predicates, and answer every lookup alike (in particular a bit pattern that no code of the block matches must not
+// decode through an entry of the earlier block).
+func boundedCheckStale(rng *rand.Rand, litLens, distLens []uint8, mode int, patterns int) string {
+	a, ma := boundedParseHeader(litLens, distLens, mode, nil, false)
+	for _, prev := range boundedEarlierBlocks() {
+		b, mb := boundedParseHeader(litLens, distLens, mode, prev, false)
+		if ma != mb {
+			return fmt.Sprintf("incomplete code: parsing on zeroed tables gives %q, on tables with earlier contents %q", ma, mb)
+		}
+		if ma != "" {
+			if ma == "rejected" {
+				return ""
+			}
+			return ma
+		}
+		if m := boundedLitTabOK(&b.litLenTable); m != "" {
+			return "incomplete code, tables with earlier contents: " + m
+		}
+		if m := boundedDistTabOK(&b.distTable); m != "" {
+			return "incomplete code, tables with earlier contents: " + m
+		}
+		r2 := rand.New(rand.NewSource(rng.Int63()))
+		for p := 0; p < patterns; p++ {
+			x := r2.Uint64()
+			s1, b1, ok1 := lookupLit(&a.litLenTable, x)
+			s2, b2, ok2 := lookupLit(&b.litLenTable, x)
+			same := ok1 == ok2 && b1 == b2 && len(s1) == len(s2)
+			for k := 0; same && k < len(s1); k++ {
+				same = s1[k] == s2[k]
+			}
+			if !same {
+				return fmt.Sprintf("incomplete code: pattern %#x decodes as (%v, %d bits, valid %v) with tables built from zero and as (%v, %d bits, valid %v) with tables built over earlier contents", x, s1, b1, ok1, s2, b2, ok2)
+			}
+			d1, n1, e1, k1 := boundedDistDecode(&a.distTable, x)
+			d2, n2, e2, k2 := boundedDistDecode(&b.distTable, x)
+			if k1 != k2 || (k1 && (d1 != d2 || n1 != n2 || e1 != e2)) {
+				return fmt.Sprintf("incomplete code: distance pattern %#x decodes as (%d, %d bits, valid %v) with tables built from zero and as (%d, %d bits, valid %v) with tables built over earlier contents", x, d1, n1, k1, d2, n2, k2)
+			}
+		}
+	}
+	if m := boundedLitTabOK(&a.litLenTable); m != "" {
+		return "incomplete code: " + m
+	}
+	if m := boundedDistTabOK(&a.distTable); m != "" {
+		return "incomplete code: " + m
+	}
+	return ""
+}
+
+var boundedEarlier []*inflate
+
+// boundedEarlierBlocks: decoder states after three fixed dynamic blocks with complete codes that use all 286 and 30
+// symbols and long codes (so that most table entries, second-level ones included, are occupied).
+func boundedEarlierBlocks() []*inflate {
+	if boundedEarlier == nil {
+		for k := 0; k < 3; k++ {
+			r := rand.New(rand.NewSource(int64(7 + k)))
+			lit := randomLengths(r, 286, k)
+			dist := randomLengths(r, 30, k+1)
+			st, msg := boundedParseHeader(lit, dist, 1+k, nil, true)
+			if msg != "" {
+				panic("bounded harness: earlier block: " + msg)
+			}
+			boundedEarlier = append(boundedEarlier, st)
+		}
+	}
+	return boundedEarlier
+}
+
+// boundedDropCodes makes a code incomplete: some used symbols (never end-of-block) lose their code, preferably long ones.
+func boundedDropCodes(rng *rand.Rand, lens []uint8, keep int) []uint8 {
+	out := append([]uint8{}, lens...)
+	var used []int
+	for s, l := range out {
+		if l > 0 && s != keep {
+			used = append(used, s)
+		}
+	}
+	if len(used) < 2 {
+		return out
+	}
+	sort.Slice(used, func(i, j int) bool { return out[used[i]] > out[used[j]] })
+	n := 1 + rng.Intn(3)
+	for k := 0; k < n && k < len(used)-1; k++ {
+		i := rng.Intn(1 + rng.Intn(len(used)))
+		out[used[i]] = 0
+	}
+	return out
+}
+
 func TestBoundedHeaderTables(t *testing.T) {
 	nh := envInt("VERIF_BOUNDED_HEADERS", 3000)
 	np := envInt("VERIF_BOUNDED_PATTERNS", 400)
@@ -398,6 +509,22 @@ func TestBoundedHeaderTables(t *testing.T) {
 				}
 			}
 		}
+		// modes 4..6: the same with some codes dropped (incomplete codes), zeroed against pre-filled tables
+		lit2, dist2 := boundedDropCodes(rng, litLens, 256), distLens
+		if i%3 == 0 {
+			dist2 = boundedDropCodes(rng, distLens, -1)
+		}
+		for mode := 4; mode <= 6; mode++ {
+			explored++
+			if m := boundedCheckStale(rng, lit2, dist2, mode-3, np/2); m != "" {
+				nfail++
+				cls := boundedClass(m)
+				if !seen[cls] {
+					seen[cls] = true
+					t.Errorf("BOUNDED-FAIL lens=[%s] prefill=%d: %s | dist=[%s]", boundedLensString(lit2), mode, m, boundedLensString(dist2))
+				}
+			}
+		}
 	}
 	t.Logf("BOUNDED explored=%d failing=%d (dynamic headers x multi-symbol modes, %d patterns each)", explored, nfail, np)
 	_ = os.Getenv
@@ -425,6 +552,12 @@ func TestBoundedHeaderTablesReplay(t *testing.T) {
 	}
 	lit, dist := parse(os.Getenv("VERIF_BOUNDED_LENS")), parse(os.Getenv("VERIF_BOUNDED_DIST"))
 	mode := envInt("VERIF_BOUNDED_PREFILL", 3)
+	if mode > 3 {
+		if m := boundedCheckStale(rand.New(rand.NewSource(1)), lit, dist, mode-3, 20000); m != "" {
+			t.Fatalf("header (mode %d): %s", mode, m)
+		}
+		return
+	}
 	if m := boundedCheckHeader(rand.New(rand.NewSource(1)), lit, dist, mode, 20000); m != "" {
 		t.Fatalf("header (mode %d): %s", mode, m)
 	}
